@@ -446,6 +446,6 @@ mod tests {
 }
 
 #[cfg(kani)]
-mod verif {
+pub(crate) mod verif {
     include!(concat!(env!("PROFIRUST_VERIF_HARNESS"), "/dp_diagnostics.rs"));
 }
